@@ -8,4 +8,7 @@ for c in "$@"; do
   echo "== $c"; ./check "$c" 2>&1 | grep -E "VIOLATION|KNOWN|broken|internal|crash" | head -5
 done
 git -C /repo checkout -- .
+# evidence and regenerated Lean written while the mutant was applied describe the mutant, not /repo: restore them
+git -C /verif checkout -- evidence lean/FractopoModel/Generated 2>/dev/null
+(cd /verif && python3 translate/run.py >/dev/null 2>&1)
 git -C /repo status --short | head -3
